@@ -72,6 +72,7 @@ Proof.
     + injection SV as <-. reflexivity.
     + destruct (parse_int s); [|discriminate]. injection SV as <-. reflexivity.
     + destruct (arg_value r) as [| | | |l] eqn:V; try discriminate. injection SV as <-. reflexivity.
+    + destruct (cast_other ko_default ko_table s); try discriminate. injection SV as <-. reflexivity.
 Qed.
 
 Definition vals_ok (os : list occ) (args : list rarg) : Prop :=
@@ -106,13 +107,13 @@ Proof.
       - rewrite !andb_true_iff in Os. destruct Os as [[[[Tv _] _] Hint] _].
         assert (Tv' : takes_value (r_spec r) = true) by (rewrite Sr; exact Tv).
         destruct (set_value_str r s Tv') as [r' [SV' _]].
-        { intros K. rewrite Sr in K. rewrite K in Hint. exact Hint. }
+        { rewrite Sr. exact Hint. }
         { intros K. eapply (so_list _ _ _ St); eauto. }
         unfold set_value, new_value in SV'. rewrite SV in SV'. discriminate.
       - rewrite !andb_true_iff in Os. destruct Os as [[[[Tv _] _] Hint] _].
         assert (Tv' : takes_value (r_spec r) = true) by (rewrite Sr; exact Tv).
         destruct (set_value_str r s Tv') as [r' [SV' _]].
-        { intros K. rewrite Sr in K. rewrite K in Hint. exact Hint. }
+        { rewrite Sr. exact Hint. }
         { intros K. eapply (so_list _ _ _ St); eauto. }
         unfold set_value, new_value in SV'. rewrite SV in SV'. discriminate. }
   intros j rj Nj. destruct (Nat.eq_dec (o_arg o) j) as [<-|Ne].
@@ -126,10 +127,10 @@ Proof.
       * destruct b; [|discriminate]. rewrite !andb_true_iff, negb_true_iff in Os. tauto.
       * destruct b; [discriminate|]. rewrite !andb_true_iff, negb_true_iff in Os. tauto.
       * rewrite !andb_true_iff in Os. destruct Os as [[[[Tv _] _] _] _].
-        unfold takes_value in Tv. destruct (a_kind a); [| | discriminate |];
+        unfold takes_value in Tv. destruct (a_kind a); try discriminate;
           destruct (a_incrementable a); try discriminate; reflexivity.
       * rewrite !andb_true_iff in Os. destruct Os as [[[[Tv _] _] _] _].
-        unfold takes_value in Tv. destruct (a_kind a); [| | discriminate |];
+        unfold takes_value in Tv. destruct (a_kind a); try discriminate;
           destruct (a_incrementable a); try discriminate; reflexivity.
     + rewrite Sr. destruct (o_form o); try discriminate; destruct (o_val o) as [b|n|s|]; try discriminate.
       * destruct b; [|discriminate]. rewrite !andb_true_iff in Os. destruct Os as [Kb _].
